@@ -249,6 +249,11 @@ def run(ctx, budget):
     for nm, dd in (('type0-mid', zz + zt + zz), ('type0-last', b'junk' + zz + zt), ('type0-only', zt), ('type0-first', zt + b'\x2e\x31' + zz),
                    ('type0-twice', zt + zt + zz + zt)):
         files.append((dd, nm))
+    # P1 timestamps at the edges of the wire format: the index written by the extraction and a fresh one must agree on them too
+    bt = ic.boundary_time_messages(rng)
+    files.append((b'xx' + b''.join(bt), 'boundary-times'))
+    for m in bt[:4]:
+        files.append((m + b'\x2e\x31junk' + gen.frame(9, b'q', 5), 'boundary-time'))
     # RTCM-like frames and message-free files
     files.append((b'\xd3\x00\x04' + bytes(7) + b'\xd3\x00\x00\x47\xea\x4b', 'rtcm'))
     files.append((b'', 'empty'))
